@@ -17,7 +17,7 @@ func TestRAC_C04(t *testing.T) {
 	maxLeaves, maxBlocks := 5, 2
 	maxT := 2
 	if res.thorough() {
-		maxLeaves, maxBlocks, maxT = 6, 3, 3
+		maxLeaves, maxBlocks, maxT = 5, 3, 3
 	}
 	rng := rand.New(rand.NewSource(res.Seed + 404))
 	var cur map[string]interface{}
@@ -110,7 +110,7 @@ func TestRAC_C04(t *testing.T) {
 					return
 				}
 				for _, p := range pool {
-					// quick: sample the third level
+					// the third target is a seeded sample (1 in 8)
 					if len(ts) >= 2 && rng.Intn(8) != 0 {
 						continue
 					}
